@@ -191,7 +191,7 @@ fn off_of(f: &[u8], s: &[u8]) -> u64 {
 fn check_file(label: &str, f: &[u8]) -> Result<(), Failure> {
     let opened = match catch_unwind(AssertUnwindSafe(|| ElfBytes::<AnyEndian>::minimal_parse(f))) {
         Ok(o) => o,
-        Err(_) => fail!("C01 minimal_parse panicked [{label}]"),
+        Err(_) => fail!("C01/C05 minimal_parse panicked [{label}]"),
     };
     let rs = ref_sections(f);
     // program header table reference
@@ -246,6 +246,40 @@ fn check_file(label: &str, f: &[u8]) -> Result<(), Failure> {
             }
         }
         _ => fail!("C05 program table presence differs from e_phoff != 0 [{label}]"),
+    }
+    // section_data on every section header: exact range or error, never a panic
+    if let Some(secs) = &rs {
+        for (i, x) in secs.iter().enumerate() {
+            let h = match e.section_headers().and_then(|t| t.get(i).ok()) {
+                Some(h) => h,
+                None => continue,
+            };
+            let got = match catch_unwind(AssertUnwindSafe(|| e.section_data(&h).map(|(d, c)| (off_of(f, d), d.len() as u64, c.is_some())))) {
+                Ok(g) => g,
+                Err(_) => fail!("C01 section_data panicked on section {i} (flags {:#x}, size {}) [{label}]", x.flags, x.size),
+            };
+            if x.ty == 8 {
+                continue;
+            }
+            let fits = rrange(f, x.off, x.size).is_ok();
+            let compressed = x.flags & 0x800 != 0;
+            match got {
+                Ok((o, l, c)) => {
+                    if !fits || (compressed && x.size < 24) {
+                        fail!("C03 section_data succeeds on section {i} although its range (or compression header) does not fit [{label}]");
+                    }
+                    let (eo, el) = if compressed { (x.off + 24, x.size - 24) } else { (x.off, x.size) };
+                    if c != compressed || l != el || (l > 0 && o != eo) {
+                        fail!("C03 section_data on section {i} returned [{o},+{l}) instead of [{eo},+{el}) [{label}]");
+                    }
+                }
+                Err(_) => {
+                    if fits && !(compressed && x.size < 24) {
+                        fail!("C03 section_data fails on section {i} although its range fits [{label}]");
+                    }
+                }
+            }
+        }
     }
     // section_headers_with_strtab
     let got = catch_unwind(AssertUnwindSafe(|| e.section_headers_with_strtab())).map_err(|_| Failure(format!("C01 section_headers_with_strtab panicked [{label}]")))?;
@@ -567,12 +601,15 @@ fn verneed_data() -> Vec<u8> {
     w32(&mut d, 48, 0x2222); w16(&mut d, 52, 1); w16(&mut d, 54, 3); w32(&mut d, 56, 4); w32(&mut d, 60, 0);
     d
 }
+/// two definitions, NOT sorted by index (index 4 with two names first, then index 1 with one name)
 fn verdef_data() -> Vec<u8> {
-    let mut d = vec![0u8; 36];
+    let mut d = vec![0u8; 64];
     let w16 = |d: &mut Vec<u8>, p: usize, v: u16| d[p..p + 2].copy_from_slice(&v.to_le_bytes());
     let w32 = |d: &mut Vec<u8>, p: usize, v: u32| d[p..p + 4].copy_from_slice(&v.to_le_bytes());
-    w16(&mut d, 0, 1); w16(&mut d, 2, 0); w16(&mut d, 4, 4); w16(&mut d, 6, 2); w32(&mut d, 8, 0x3333); w32(&mut d, 12, 20); w32(&mut d, 16, 0);
+    w16(&mut d, 0, 1); w16(&mut d, 2, 0); w16(&mut d, 4, 4); w16(&mut d, 6, 2); w32(&mut d, 8, 0x3333); w32(&mut d, 12, 20); w32(&mut d, 16, 36);
     w32(&mut d, 20, 4); w32(&mut d, 24, 8); w32(&mut d, 28, 1); w32(&mut d, 32, 0);
+    w16(&mut d, 36, 1); w16(&mut d, 38, 1); w16(&mut d, 40, 1); w16(&mut d, 42, 1); w32(&mut d, 44, 0x4444); w32(&mut d, 48, 20); w32(&mut d, 52, 0);
+    w32(&mut d, 56, 1); w32(&mut d, 60, 0);
     d
 }
 fn versym_data() -> Vec<u8> {
@@ -597,6 +634,20 @@ fn permutations(items: &[usize]) -> Vec<Vec<usize>> {
         }
     }
     out
+}
+
+static mut FAILS: Vec<String> = Vec::new();
+fn note(r: Result<(), Failure>) {
+    if let Err(f) = r {
+        unsafe {
+            let fails = &mut *std::ptr::addr_of_mut!(FAILS);
+            // keep the first failure of each distinct "<property> <first words>" kind
+            let key: String = f.0.split(' ').take(3).collect::<Vec<_>>().join(" ");
+            if fails.len() < 60 && !fails.iter().any(|x| x.starts_with(&key)) {
+                fails.push(f.0);
+            }
+        }
+    }
 }
 
 fn run() -> Result<usize, Failure> {
@@ -627,7 +678,7 @@ fn run() -> Result<usize, Failure> {
             for ph in [false, true] {
                 let phdrs = if ph { vec![(1u32, 0u64, 64u64), (PT_DYNAMIC, 64, 32)] } else { vec![] };
                 let spec = Spec { secs: secs.clone(), phdrs, shstrndx: 6, xnum: false, shentsize: 64, trailing: 0 };
-                check_file(&format!("common kinds order {perm:?} links ({l1},{l2}) phdrs={ph}"), &build(&spec))?;
+                note(check_file(&format!("common kinds order {perm:?} links ({l1},{l2}) phdrs={ph}"), &build(&spec)));
                 n += 1;
             }
         }
@@ -648,7 +699,7 @@ fn run() -> Result<usize, Failure> {
                         for ph in [false, true] {
                             let phdrs = if ph { vec![(PT_DYNAMIC, 64u64, 16u64), (1, 0, 8)] } else { vec![] };
                             let spec = Spec { secs: secs.clone(), phdrs, shstrndx: ndx, xnum, shentsize: 64, trailing: 3 };
-                            check_file(&format!("symtab entsize={es} link={link} dyn entsize={des} off={ov:?} strsize={sz:?} xnum={xnum} shstrndx={ndx} phdrs={ph}"), &build(&spec))?;
+                            note(check_file(&format!("symtab entsize={es} link={link} dyn entsize={des} off={ov:?} strsize={sz:?} xnum={xnum} shstrndx={ndx} phdrs={ph}"), &build(&spec)));
                             n += 1;
                         }
                     }
@@ -658,24 +709,45 @@ fn run() -> Result<usize, Failure> {
     }
     for she in [0u16, 40, 63, 65] {
         let spec = Spec { secs: base.clone(), phdrs: vec![], shstrndx: 3, xnum: false, shentsize: she, trailing: 0 };
-        check_file(&format!("e_shentsize={she}"), &build(&spec))?;
+        note(check_file(&format!("e_shentsize={she}"), &build(&spec)));
         n += 1;
     }
     // PN_XNUM with sh_info != sh_link and e_shnum extended: counts taken from the right shdr[0] fields
     for nph in [1usize, 2, 3] {
         let spec = Spec { secs: base.clone(), phdrs: (0..nph).map(|i| (1u32, 0u64, 8 * i as u64)).collect(), shstrndx: 4, xnum: true, shentsize: 64, trailing: 0 };
         let mut f = build(&spec);
-        check_file(&format!("PN_XNUM with {nph} program headers, shdr[0].sh_link=4"), &f)?;
+        note(check_file(&format!("PN_XNUM with {nph} program headers, shdr[0].sh_link=4"), &f));
         let l = f.len();
         f.truncate(l - 1);
-        check_file(&format!("PN_XNUM with {nph} program headers, truncated by one byte"), &f)?;
+        note(check_file(&format!("PN_XNUM with {nph} program headers, truncated by one byte"), &f));
         n += 2;
+    }
+    // extended section count so large that count*64 overflows (2^58 + k) or merely does not fit
+    for cnt in [(1u64 << 58) + 2, 1u64 << 58, (1u64 << 57) + 1, u64::MAX, 1u64 << 40] {
+        let spec = Spec { secs: base.clone(), phdrs: vec![], shstrndx: 3, xnum: true, shentsize: 64, trailing: 0 };
+        let mut f = build(&spec);
+        let shoff = u64a(&f, 40).unwrap() as usize;
+        f[shoff + 32..shoff + 40].copy_from_slice(&cnt.to_le_bytes());
+        note(check_file(&format!("e_shnum=0 with shdr[0].sh_size={cnt:#x}"), &f));
+        n += 1;
+    }
+    // SHF_COMPRESSED sections shorter than / exactly as long as a compression header; section_data on every header
+    for csz in [0u64, 1, 11, 12, 23, 24, 25, 40] {
+        let mut secs = base.clone();
+        secs.push(Sec { size_override: Some(csz), ..sec(1, vec![3u8; 40]) });
+        let spec = Spec { secs, phdrs: vec![], shstrndx: 3, xnum: false, shentsize: 64, trailing: 0 };
+        let mut f = build(&spec);
+        let shoff = u64a(&f, 40).unwrap() as usize;
+        let last = shoff + 64 * 5;
+        f[last + 8..last + 16].copy_from_slice(&0x800u64.to_le_bytes());
+        note(check_file(&format!("SHF_COMPRESSED section of {csz} bytes"), &f));
+        n += 1;
     }
     // Family 3: symbol versioning: versym + verneed + verdef with their own string tables, in every order and link assignment
     let vk: Vec<Sec> = vec![
         Sec { entsize: 2, ..sec(SHT_GNU_VERSYM, versym_data()) },
         Sec { info: 2, ..sec(SHT_GNU_VERNEED, verneed_data()) },
-        Sec { info: 1, ..sec(SHT_GNU_VERDEF, verdef_data()) },
+        Sec { info: 2, ..sec(SHT_GNU_VERDEF, verdef_data()) },
     ];
     for perm in permutations(&[0, 1, 2]) {
         for (ln, ld) in [(4u32, 5u32), (5, 4), (4, 4), (5, 5), (9, 4), (4, 9)] {
@@ -701,7 +773,7 @@ fn run() -> Result<usize, Failure> {
                     secs.push(sec(SHT_STRTAB, strtab_data(5)));
                     secs.push(sec(SHT_STRTAB, strtab_data(6)));
                     let spec = Spec { secs, phdrs: vec![], shstrndx: 4, xnum: false, shentsize: 64, trailing: 0 };
-                    check_file(&format!("symver order {perm:?} verneed.link={ln} verdef.link={ld} dropped={drop:?} versym entsize={ves}"), &build(&spec))?;
+                    note(check_file(&format!("symver order {perm:?} verneed.link={ln} verdef.link={ld} dropped={drop:?} versym entsize={ves}"), &build(&spec)));
                     n += 1;
                 }
             }
@@ -721,7 +793,7 @@ fn run() -> Result<usize, Failure> {
         let snd = secs.len() as u16;
         secs.push(sec(SHT_STRTAB, strtab));
         let spec = Spec { secs, phdrs: vec![], shstrndx: snd, xnum: false, shentsize: 64, trailing: 0 };
-        check_file(&format!("section names in order {perm:?}"), &build(&spec))?;
+        note(check_file(&format!("section names in order {perm:?}"), &build(&spec)));
         n += 1;
     }
     Ok(n)
@@ -729,11 +801,20 @@ fn run() -> Result<usize, Failure> {
 
 fn main() {
     std::panic::set_hook(Box::new(|_| {}));
-    match run() {
-        Ok(n) => println!("slice families (common sections, corruptions, extended numbering, symbol versioning): {n} scenarios agree with the reference reader"),
+    let n = match run() {
+        Ok(n) => n,
         Err(f) => {
             println!("FAIL {}", f.0);
             std::process::exit(1);
         }
+    };
+    let fails = unsafe { &*std::ptr::addr_of!(FAILS) };
+    if fails.is_empty() {
+        println!("slice families (common sections, corruptions, extended numbering, symbol versioning): {n} scenarios agree with the reference reader");
+    } else {
+        for f in fails {
+            println!("FAIL {f}");
+        }
+        std::process::exit(1);
     }
 }
